@@ -423,6 +423,17 @@ def rule_f(ctx, ix):
     def membership_test(test):
         """The test looks at the datasets of the existing members and compares them with the parameter - directly, or through a
         predicate method of the class that does."""
+        if isinstance(test, ast.UnaryOp) and isinstance(test.op, ast.Not):
+            return membership_test(test.operand)
+        if isinstance(test, ast.Name):
+            # a flag set by a search loop over the members: `for m in self.subsets: if m.data is data: flag = True; break`
+            for lp_ in ast.walk(f.node):
+                if isinstance(lp_, ast.For) and unparse(lp_.iter) in ('%s.subsets' % s, 'list(%s.subsets)' % s):
+                    for g_ in ast.walk(lp_):
+                        if isinstance(g_, ast.If) and any(isinstance(a_, ast.Assign) and unparse(a_.targets[0]) == test.id for a_ in g_.body) \
+                                and p in [x.id for x in ast.walk(g_.test) if isinstance(x, ast.Name)] and '.data' in unparse(g_.test):
+                            return True
+            return False
         t = unparse(test)
         names = [x.id for x in ast.walk(test) if isinstance(x, ast.Name)]
         if '%s.subsets' % s in t and p in names and '.data' in t:
